@@ -304,6 +304,70 @@ func rulesC13(w *World, r *Report) {
 		}
 	}
 
+	// the file lock is the only lock a handle holds from Open to Close: an in-process mutex taken on the way is given
+	// back in the function that took it (held across the return it would have to be released on every failure path of
+	// the constructors as well, which close the descriptor directly)
+	{
+		n := 0
+		bad := ""
+		for _, f := range libFuncs(w) {
+			for _, c := range callsIn(f) {
+				sc := c.Common().StaticCallee()
+				if sc == nil || sc.Pkg == nil || sc.Pkg.Pkg.Path() != "sync" || (sc.Name() != "Lock" && sc.Name() != "RLock") {
+					continue
+				}
+				n++
+				recv := newExprCtx(w).expr(c.Common().Args[0])
+				unlocks := func(in ssa.Instruction) bool {
+					ci, ok := in.(ssa.CallInstruction)
+					if !ok {
+						return false
+					}
+					g := ci.Common().StaticCallee()
+					return g != nil && g.Pkg != nil && g.Pkg.Pkg.Path() == "sync" && (g.Name() == "Unlock" || g.Name() == "RUnlock") && newExprCtx(w).expr(ci.Common().Args[0]) == recv
+				}
+				deferred := false
+				eachInstr(f, func(in ssa.Instruction) {
+					if d, ok := in.(*ssa.Defer); ok && unlocks(d) && dominatesInstr(c.(ssa.Instruction), d) {
+						deferred = true
+					}
+				})
+				if deferred {
+					continue
+				}
+				// from just after the Lock: a return reachable without an Unlock of the same mutex
+				blk := c.Block()
+				after := false
+				escaped := false
+				for _, in := range blk.Instrs {
+					if in == c.(ssa.Instruction) {
+						after = true
+						continue
+					}
+					if after && unlocks(in) {
+						escaped = true
+					}
+				}
+				if escaped {
+					continue
+				}
+				held := false
+				for _, s2 := range blk.Succs {
+					if pathAvoiding(s2, unlocks) != nil {
+						held = true
+					}
+				}
+				if _, isRet := blk.Instrs[len(blk.Instrs)-1].(*ssa.Return); isRet {
+					held = true
+				}
+				if held && bad == "" {
+					bad = funcName(f) + " returns with the mutex " + shortExpr(recv) + " (locked at " + w.instrPos(c) + ") still held"
+				}
+			}
+		}
+		r.Check(bad == "", "C13.R5", "mutex-not-held-across-return", w.pos(oal.Pos()), fmt.Sprintf("%d mutex acquisitions in package whispertool, each released before its function returns", n), bad+": the failure paths of Open and Create close the descriptor themselves and know nothing of it, so a failed Open leaves the path blocked for every later Open in the process")
+	}
+
 	// ---------- R4: default is locked
 	r.Rule("C13.R4", "constants: both constructors initialise flock=true; the only other store to Whisper.flock is `false` inside WithoutFlock; no non-test code of the module calls WithoutFlock", 4)
 	for _, f := range libFuncs(w) {
